@@ -39,7 +39,7 @@ class LoseFirst:
 
 class St:
     """one explicit state (deep-copied as a whole)"""
-    __slots__ = ("w", "d", "rd", "gs", "gl", "spec", "irq_cfg", "last_retx", "last_status", "addr")
+    __slots__ = ("w", "d", "rd", "gs", "gl", "spec", "irq_cfg", "last_retx", "last_status", "addr", "bystander")
 
 
 # ---------------------------------------------------------------- roots
@@ -76,6 +76,7 @@ def mk_root(spec, seed):
         d.ack = True
     s = St()
     s.w, s.d, s.rd, s.gs, s.gl, s.spec = w, d, rd, None, None, spec
+    s.bystander = None
     s.irq_cfg = (True, True, True)
     s.last_retx = 0
     s.addr = {p: addr_of(seed, p) for p in PIPES}
@@ -95,6 +96,9 @@ def mk_root(spec, seed):
         s.gl = sim.ghost_listener(w, "gl", [None, s.addr[1]], dynpd=0x3F if dyn else 0,
                                   feature=(0x06 if spec["ackpl"] else 0x04) if dyn else 0, pw=static_len(spec, 0))
     w.advance(500 * US)
+    if spec.get("bystander"):
+        s.bystander = H.bystander(w, link.cls_of(spec["cls"]))  # another object of the class, configured differently (kept alive)
+        w.advance(500 * US)
     w.airlog.clear()
     rd.spilog[:] = rd.spilog[-1:]
     s.last_status = rd.spilog[-1][2][0]
@@ -515,7 +519,7 @@ def fast_clone(s):
 
 # ---------------------------------------------------------------- work items
 def root_label(spec, prefix, group, variant=0):
-    return "%s/%s/%s%s/%s%s%s" % (spec["cls"], spec["role"], spec["mode"], "+ackpl" if spec["ackpl"] else "", group, "abc"[variant],
+    return "%s/%s/%s%s%s/%s%s%s" % (spec["cls"], spec["role"], spec["mode"], "+ackpl" if spec["ackpl"] else "", "+bystander" if spec.get("bystander") else "", group, "abc"[variant],
                                 ("/" + "+".join(showop(o) for o in prefix)) if prefix else "")
 
 
@@ -560,6 +564,10 @@ def plan(tier, cls_name="full"):
             specs.append(dict(cls=cls_name, role=role, mode="dyn", ackpl=False))
     if not lite:
         specs.append(dict(cls=cls_name, role="rx", mode="mixed", ackpl=False))
+    # another object of the class in the same program, configured with other lengths / modes / masks after the object under
+    # test was set up (H.bystander): the accessors still describe THIS radio (fifo group only)
+    specs.append(dict(cls=cls_name, role="rx", mode="static", ackpl=False, bystander=True))
+    specs.append(dict(cls=cls_name, role="tx", mode="dyn", ackpl=True, bystander=True))
     items = []
     for spec in specs:
         rx = spec["role"] == "rx"
@@ -580,6 +588,8 @@ def plan(tier, cls_name="full"):
                 for group in ("fifo", "flags", "irq", "all"):
                     if v and group != "fifo":
                         continue  # the flags / irq / all groups do not depend on the payload-length variant
+                    if spec.get("bystander") and group != "fifo":
+                        continue
                     items.append((spec, prefix, group, depth - 1 if group == "all" else depth, v))
     return items, depth
 
@@ -592,7 +602,9 @@ def w_irq_role(item, rep):
     cls_name, seed, pid = item
     for role in ("rx", "tx"):
         for cfg in itertools.product((True, False), repeat=3):
-            for how in ("reassign", "toggle-twice"):
+            for how in ("reassign", "toggle-twice", "crc-same", "power-cycle", "with-cycle", "channel+rate+pa"):
+                if how in ("crc-same", "with-cycle") and cls_name == "lite":
+                    continue  # (no crc attribute / context manager in rf24_lite)
                 events = [("rx", 1, 5)] if role == "rx" else [("tx", 5, 0, 0, False), ("tx", 5, 0, 0, True)]
                 for ev in events:
                     s = mk_root(dict(cls=cls_name, role=role, mode="dyn", ackpl=False), seed)
@@ -601,8 +613,28 @@ def w_irq_role(item, rep):
                     d.interrupt_config(*cfg)
                     if how == "reassign":
                         d.listen = (role == "rx")
-                    else:
+                    elif how == "toggle-twice":
                         d.listen = (role != "rx")
+                        d.listen = (role == "rx")
+                    elif how == "crc-same":
+                        # another attribute that lives in CONFIG, assigned the value it already has (both ends keep 2 bytes)
+                        d.crc = 2
+                        d.listen = (role == "rx")
+                    elif how == "power-cycle":
+                        d.power = False
+                        s.w.advance(300 * US)
+                        d.power = True
+                        d.listen = (role == "rx")
+                    elif how == "with-cycle":
+                        d.__exit__(None, None, None)
+                        s.w.advance(300 * US)
+                        d.__enter__()
+                        d.listen = (role == "rx")
+                    else:
+                        # attributes of other registers, assigned the values in effect
+                        d.channel = d.channel
+                        d.data_rate = d.data_rate
+                        d.pa_level = d.pa_level
                         d.listen = (role == "rx")
                     if role == "tx":
                         d.open_tx_pipe(s.addr[1])
